@@ -189,8 +189,8 @@ func runCheck(repo, verif, prop, tier string, update bool) int {
 		if err == nil {
 			rsolver.firstS = timeout * 2
 			for _, r := range reports {
-				if r.Status == "sat" || r.Status == "unsat" || r.fv.Err != "" || !claimed.funcs[r.Func] {
-					continue
+				if r.Status == "sat" || r.Status == "unsat" || r.fv.Err != "" || !claimed.funcs[r.Func] || r.o.Cover {
+					continue // (vacuity guards are best effort: an undecided one is recorded, not retried)
 				}
 				if _, skipped := claimed.skips[r.Name]; skipped {
 					continue
